@@ -27,12 +27,12 @@ Print Assumptions wrapper_only.
    (a black box that returns or raises any Exception class), an escaping
    exception that is outside the family originates at an unguarded site. *)
 Theorem nonfamily_only_at_unguarded_sites :
-  forall (V : variant) (R : registry) (cl : blackbox) (refuse : bool) (dec : decoder) (x : jvalue) (ac io : bool) (version : option ustring),
+  forall (V : variant) (R : registry) (cl : blackbox) (strictext refuse : bool) (dec : decoder) (x : jvalue) (ac io : bool) (version : option ustring),
   reg_known R = true ->
   (forall io' n v e, cl io' n v = CleanRaise e -> is_exception e = true) ->
-  forall e s, In (Exc e s) (parse V R (clean_via cl) refuse dec x ac io version) -> family e = false -> V s = false.
+  forall e s, In (Exc e s) (parse V R (clean_via cl) strictext refuse dec x ac io version) -> family e = false -> V s = false.
 Proof.
-  intros V R cl refuse dec x ac io version HR Hcl e s Hin Hf.
+  intros V R cl strictext refuse dec x ac io version HR Hcl e s Hin Hf.
   eapply ok_nonfamily_site; [|exact Hin|exact Hf].
   apply ok_parse; [apply ok_clean_via; exact Hcl|exact HR].
 Qed.
@@ -40,37 +40,51 @@ Print Assumptions nonfamily_only_at_unguarded_sites.
 
 (* the repaired variants: only the family escapes *)
 Theorem family_only :
-  forall (V : variant) (R : registry) (cl : blackbox) (refuse : bool) (dec : decoder) (x : jvalue) (ac io : bool) (version : option ustring),
+  forall (V : variant) (R : registry) (cl : blackbox) (strictext refuse : bool) (dec : decoder) (x : jvalue) (ac io : bool) (version : option ustring),
   all_guarded V -> reg_known R = true ->
   (forall io' n v e, cl io' n v = CleanRaise e -> is_exception e = true) ->
-  forall e s, In (Exc e s) (parse V R (clean_via cl) refuse dec x ac io version) -> family e = true.
+  forall e s, In (Exc e s) (parse V R (clean_via cl) strictext refuse dec x ac io version) -> family e = true.
 Proof.
-  intros V R cl refuse dec x ac io version HV HR Hcl e s Hin.
+  intros V R cl strictext refuse dec x ac io version HV HR Hcl e s Hin.
   eapply ok_all_guarded; [exact HV| |exact Hin].
   apply ok_parse; [apply ok_clean_via; exact Hcl|exact HR].
 Qed.
 Print Assumptions family_only.
 
 Theorem family_only_parse_observable :
-  forall (V : variant) (R : registry) (cl : blackbox) (refuse : bool) (dec : decoder) (x vr : jvalue) (ac io : bool) (version : option ustring),
+  forall (V : variant) (R : registry) (cl : blackbox) (strictext refuse : bool) (dec : decoder) (x vr : jvalue) (ac io : bool) (version : option ustring),
   all_guarded V -> reg_known R = true ->
   (forall io' n v e, cl io' n v = CleanRaise e -> is_exception e = true) ->
-  forall e s, In (Exc e s) (parse_observable V R (clean_via cl) refuse dec x vr ac io version) -> family e = true.
+  forall e s, In (Exc e s) (parse_observable V R (clean_via cl) strictext refuse dec x vr ac io version) -> family e = true.
 Proof.
-  intros V R cl refuse dec x vr ac io version HV HR Hcl e s Hin.
+  intros V R cl strictext refuse dec x vr ac io version HV HR Hcl e s Hin.
   eapply ok_all_guarded; [exact HV| |exact Hin].
   apply ok_parse_observable; [apply ok_clean_via; exact Hcl|exact HR].
 Qed.
 Print Assumptions family_only_parse_observable.
 
-(* parse(file-like object) *)
-Theorem family_only_parse_file :
-  forall (V : variant) (R : registry) (cl : blackbox) (refuse : bool) (dec : decoder) (tr : textres) (ac io : bool) (version : option ustring),
+(* stix2.parsing.dict_to_stix2 called directly on a value (nonstr: the dict has a key that is not a string) *)
+Theorem family_only_dict_to_stix2 :
+  forall (V : variant) (R : registry) (cl : blackbox) (strictext refuse : bool) (dec : decoder) (d : jvalue) (nonstr ac io : bool)
+         (version : option ustring),
   all_guarded V -> reg_known R = true ->
   (forall io' n v e, cl io' n v = CleanRaise e -> is_exception e = true) ->
-  forall e s, In (Exc e s) (parse_file V R (clean_via cl) refuse dec tr ac io version) -> family e = true.
+  forall e s, In (Exc e s) (dict_to_stix2 V R (clean_via cl) strictext refuse dec d nonstr ac io version) -> family e = true.
 Proof.
-  intros V R cl refuse dec tr ac io version HV HR Hcl e s Hin.
+  intros V R cl strictext refuse dec d nonstr ac io version HV HR Hcl e s Hin.
+  eapply ok_all_guarded; [exact HV| |exact Hin].
+  apply ok_dict_to_stix2; [apply ok_clean_via; exact Hcl|exact HR].
+Qed.
+Print Assumptions family_only_dict_to_stix2.
+
+(* parse(file-like object) *)
+Theorem family_only_parse_file :
+  forall (V : variant) (R : registry) (cl : blackbox) (strictext refuse : bool) (dec : decoder) (tr : textres) (ac io : bool) (version : option ustring),
+  all_guarded V -> reg_known R = true ->
+  (forall io' n v e, cl io' n v = CleanRaise e -> is_exception e = true) ->
+  forall e s, In (Exc e s) (parse_file V R (clean_via cl) strictext refuse dec tr ac io version) -> family e = true.
+Proof.
+  intros V R cl strictext refuse dec tr ac io version HV HR Hcl e s Hin.
   eapply ok_all_guarded; [exact HV| |exact Hin].
   apply ok_parse_file; [apply ok_clean_via; exact Hcl|exact HR].
 Qed.
@@ -78,12 +92,12 @@ Print Assumptions family_only_parse_file.
 
 (* direct construction of any class without unknown hooks *)
 Theorem family_only_construct :
-  forall (V : variant) (R : registry) (cl : blackbox) (dec : decoder) (c : cls) (ac io : bool) (kw : list (ustring * jvalue)),
+  forall (V : variant) (R : registry) (cl : blackbox) (strictext : bool) (dec : decoder) (c : cls) (ac io : bool) (kw : list (ustring * jvalue)),
   all_guarded V -> reg_known R = true -> cls_known c = true ->
   (forall io' n v e, cl io' n v = CleanRaise e -> is_exception e = true) ->
-  forall e s, In (Exc e s) (construct V R (clean_via cl) dec c ac io kw) -> family e = true.
+  forall e s, In (Exc e s) (construct V R (clean_via cl) strictext dec c ac io kw) -> family e = true.
 Proof.
-  intros V R cl dec c ac io kw HV HR Hc Hcl e s Hin.
+  intros V R cl strictext dec c ac io kw HV HR Hc Hcl e s Hin.
   eapply ok_all_guarded; [exact HV| |exact Hin].
   apply ok_construct; [apply ok_clean_via; exact Hcl|exact HR|exact Hc].
 Qed.
@@ -91,11 +105,11 @@ Print Assumptions family_only_construct.
 
 (* the set-valued cleaner used when the model is evaluated in the correspondence run is covered as well *)
 Theorem family_only_evaluated_model :
-  forall (V : variant) (R : registry) (refuse : bool) (dec : decoder) (x : jvalue) (ac io : bool) (version : option ustring),
+  forall (V : variant) (R : registry) (strictext refuse : bool) (dec : decoder) (x : jvalue) (ac io : bool) (version : option ustring),
   reg_known R = true ->
-  forall e s, In (Exc e s) (parse V R clean_any refuse dec x ac io version) -> family e = false -> V s = false.
+  forall e s, In (Exc e s) (parse V R clean_any strictext refuse dec x ac io version) -> family e = false -> V s = false.
 Proof.
-  intros V R refuse dec x ac io version HR e s Hin Hf.
+  intros V R strictext refuse dec x ac io version HR e s Hin Hf.
   eapply ok_nonfamily_site; [|exact Hin|exact Hf].
   apply ok_parse; [apply ok_clean_any|exact HR].
 Qed.
@@ -105,15 +119,15 @@ Print Assumptions family_only_evaluated_model.
    black-box behaviour of the cleaners: each outcome is in the evaluated set, or is an InvalidValueError
    subclass re-raised by the wrapper where the evaluated set has InvalidValueError *)
 Theorem evaluated_model_covers_every_cleaner :
-  forall (V : variant) (R : registry) (cl : blackbox) (refuse : bool) (dec : decoder) (x : jvalue) (ac io : bool) (version : option ustring),
+  forall (V : variant) (R : registry) (cl : blackbox) (strictext refuse : bool) (dec : decoder) (x : jvalue) (ac io : bool) (version : option ustring),
   (forall io' n v e, cl io' n v = CleanRaise e -> is_exception e = true) ->
-  forall r, In r (parse V R (clean_via cl) refuse dec x ac io version) ->
-  exists r', In r' (parse V R clean_any refuse dec x ac io version) /\
+  forall r, In r (parse V R (clean_via cl) strictext refuse dec x ac io version) ->
+  exists r', In r' (parse V R clean_any strictext refuse dec x ac io version) /\
              (r = r' \/ exists e, r = Exc e S_lib /\ subclass e K_InvalidValueError = true /\
                                   r' = Exc (Known K_InvalidValueError) S_lib).
 Proof.
-  intros V R cl refuse dec x ac io version Hcl r Hr.
-  exact (cov_parse V R _ _ refuse (cov_clean_via_any cl Hcl) dec x ac io version r Hr).
+  intros V R cl strictext refuse dec x ac io version Hcl r Hr.
+  exact (cov_parse V R _ _ strictext refuse (cov_clean_via_any cl Hcl) dec x ac io version r Hr).
 Qed.
 Print Assumptions evaluated_model_covers_every_cleaner.
 
@@ -132,16 +146,16 @@ Print Assumptions custom_registry_known.
    that site unguarded, some input makes an exception outside the family escape at that site *)
 Theorem each_site_refuted :
   forall s, s <> S_lib ->
-  exists x ac dec e, In (Exc e s) (parse (unguarded_at [s]) live clean_any false dec x ac false None) /\ family e = false.
+  exists x ac dec e, In (Exc e s) (parse (unguarded_at [s]) live clean_any true false dec x ac false None) /\ family e = false.
 Proof. exact site_refuted. Qed.
 Print Assumptions each_site_refuted.
 
 Theorem pinned_family_only_refuted :
-  ~ (forall x ac dec e s, In (Exc e s) (parse pinned live clean_any false dec x ac false None) -> family e = true).
+  ~ (forall x ac dec e s, In (Exc e s) (parse pinned live clean_any true false dec x ac false None) -> family e = true).
 Proof.
   intros H.
   assert (Hin : In (Exc (Known K_KeyError) S_detect_objects)
-                   (parse pinned live clean_any false (dec_table []) w_detect_objects false false None)).
+                   (parse pinned live clean_any true false (dec_table []) w_detect_objects false false None)).
   { vm_compute. left. reflexivity. }
   specialize (H _ _ _ _ _ Hin). vm_compute in H. discriminate H.
 Qed.
@@ -150,11 +164,11 @@ Print Assumptions pinned_family_only_refuted.
 (* a failed construction leaves the store unchanged; registries are read-only
    parameters of every function of the model (no function returns one) *)
 Theorem failed_construct_no_effect :
-  forall V R clean refuse dec (st : store) (x : jvalue) version st' e s,
-  In (st', Escaped e s) (store_add_one V R clean refuse dec st x version) ->
-  st' = st /\ In (Exc e s) (parse V R clean refuse dec x true false version).
+  forall V R clean strictext refuse dec (st : store) (x : jvalue) version st' e s,
+  In (st', Escaped e s) (store_add_one V R clean strictext refuse dec st x version) ->
+  st' = st /\ In (Exc e s) (parse V R clean strictext refuse dec x true false version).
 Proof.
-  intros V R clean refuse dec st x version st' e s Hin.
+  intros V R clean strictext refuse dec st x version st' e s Hin.
   apply store_add_one_cases in Hin. destruct Hin as [[Ha _]|[e' [s' [Ha [Hst Hp]]]]]; [discriminate Ha|].
   inversion Ha; subst. split; [reflexivity|exact Hp].
 Qed.
@@ -163,13 +177,13 @@ Print Assumptions failed_construct_no_effect.
 (* adding a list: the store grows exactly by the inputs before the first failing one,
    each of which was constructed successfully *)
 Theorem store_add_list_effect :
-  forall V R clean refuse dec xs (st : store) version st' a,
-  In (st', a) (store_add_list V R clean refuse dec st xs version) ->
+  forall V R clean strictext refuse dec xs (st : store) version st' a,
+  In (st', a) (store_add_list V R clean strictext refuse dec st xs version) ->
   exists k, (k <= List.length xs)%nat /\ st' = (st ++ firstn k xs)%list /\
-            Forall (fun x => exists p, In (Val p) (parse V R clean refuse dec x true false version)) (firstn k xs) /\
+            Forall (fun x => exists p, In (Val p) (parse V R clean strictext refuse dec x true false version)) (firstn k xs) /\
             match a with
             | Added => k = List.length xs
-            | Escaped e s => exists x, nth_error xs k = Some x /\ In (Exc e s) (parse V R clean refuse dec x true false version)
+            | Escaped e s => exists x, nth_error xs k = Some x /\ In (Exc e s) (parse V R clean strictext refuse dec x true false version)
             end.
 Proof. intros. eapply store_add_list_prefix. eassumption. Qed.
 Print Assumptions store_add_list_effect.
